@@ -1,0 +1,40 @@
+//! Verification hooks (cargo feature `verif`, off by default).
+//!
+//! Nothing in here changes behaviour: `lex_updated` forwards every incremental
+//! lexer update performed by `AnalyzedSource::update` to an observer,
+//! if one is installed for the current thread, and does nothing otherwise.
+use crate::{
+    tokens::{Token, TokenChange},
+    TextChange,
+};
+use std::cell::RefCell;
+
+/// Arguments: old tokens, new tokens, reported token change, new text, applied text change.
+pub type LexObserver = Box<dyn FnMut(&[Token], &[Token], &TokenChange, &str, &TextChange)>;
+
+thread_local! {
+    static LEX_OBSERVER: RefCell<Option<LexObserver>> = const { RefCell::new(None) };
+}
+
+/// Installs (or removes) the observer of the current thread.
+pub fn set_lex_observer(observer: Option<LexObserver>) {
+    LEX_OBSERVER.with(|cell| *cell.borrow_mut() = observer);
+}
+
+pub(crate) fn lex_observed() -> bool {
+    LEX_OBSERVER.with(|cell| cell.borrow().is_some())
+}
+
+pub(crate) fn lex_updated(
+    old_tokens: &[Token],
+    new_tokens: &[Token],
+    token_change: &TokenChange,
+    new_text: &str,
+    change: &TextChange,
+) {
+    LEX_OBSERVER.with(|cell| {
+        if let Some(observer) = cell.borrow_mut().as_mut() {
+            observer(old_tokens, new_tokens, token_change, new_text, change);
+        }
+    });
+}
